@@ -10,7 +10,7 @@ import math
 
 import numpy as np
 
-from mc.estimators import build, ncomp
+from mc.estimators import build, ncomp, build_via, ROUTES
 from mc.util import call, raised
 from models import numref as R
 
@@ -82,7 +82,7 @@ def _spec(ci):
     return spec
 
 
-def _build(spec, ext, npts=4):
+def _build(spec, ext, npts=4, route="ctor"):
     kw = dict(spec[1])
     fs = kw.pop("force_sep", False)
     if fs:
@@ -92,7 +92,7 @@ def _build(spec, ext, npts=4):
         with warnings.catch_warnings():
             warnings.simplefilter("ignore")
             return vd.Spline(damping=kw.get("damping"), force_coords=(np.array([p[0] for p in F_]), np.array([p[1] for p in F_])))
-    return build([spec[0], kw], ext)
+    return build_via([spec[0], kw], ext, route)
 
 
 def _bound(spec, e, n, qe, qn, dnorm, ext, perm):
@@ -191,7 +191,9 @@ def run(case, rec):
     data = _data(nc, npts)
     dnorm = max(float(np.max(np.abs(d))) for d in data)
     qe = np.array([q[0] for q in QF]); qn = np.array([q[1] for q in QF])
-    factory = lambda: _build(spec, ext, npts)
+    # route of the parameters into the estimator (constructor / set_params / attribute / clone): one per case, rotating
+    route = ROUTES[(case["cfg"] + len(case["fam"]) + sum(case["pts"])) % 4]
+    factory = lambda: _build(spec, ext, npts, route)
     fam = case["fam"]
     rec.cls("%s/%s" % (spec[0], fam))
     tight = np.full(qe.size, 8 * R.EPS) * (dnorm + 1.0)
